@@ -429,7 +429,8 @@ def smooth_spec(dset, freq_window=3, dir_window=3):
         left = left.assign_coords({attrs.DIRNAME: left[attrs.DIRNAME] - 360})
         right = dsout.isel(**{attrs.DIRNAME: slice(0, window)})
         right = right.assign_coords({attrs.DIRNAME: right[attrs.DIRNAME] + 360})
-        dsout = xr.concat([left, dsout, right], dim=attrs.DIRNAME)
+        kwargs = {"data_vars": "minimal"} if isinstance(dsout, xr.Dataset) else {}
+        dsout = xr.concat([left, dsout, right], dim=attrs.DIRNAME, **kwargs)
 
     # Smooth
     dim = {attrs.FREQNAME: freq_window, attrs.DIRNAME: dir_window}
